@@ -743,4 +743,4 @@ def run():
         "let/into rewrites are applied only where the continuation has no qualified reference to the renamed relation (t.x / u.x) and the named frame has no duplicate column names; `select` of the full frame only on frames of distinct unqualified names",
         "function-call sites: expression slots of filter / derive / select / sort and the `name = fn expr` items of aggregate / group-aggregate / window / group-window steps in the main pipeline (the generated function's body may be the aggregate or window call itself: `x -> sum x`, `x n -> lag n x`); join conditions are not abstracted",
     ]
-    ck.finish(TRUSTED, "streams by rewrite kind: let (let + into, every prefix length), func (every expression slot x call variants pos/named-omit/named-pass/piped/piped-named/module/module2), trfunc (every run of 1..3 transforms as a transform function), filter (split of every conjunctive filter, merge of every adjacent pair), identity (derive {} / filter true / take 1.. / select of the full frame at every position, sort directly before every sort), module (declarations produced by let / function rewrites moved into one module, two nested modules, or one module with a different same-named decoy left at top level), compose (random chains of 2 and 3 rewrites), tworef (append / self-join / aliased direct self-join of one let-table referenced twice, also behind a module path), module-siblings and pointfree (directed), and a directed family `.. | sort | take/window/group-take | filter/derive/..` (the order must cross whatever boundary a rewrite puts after the sort). Each pair on 1..3 instances x {sqlite, generic}; engine = abstract rewrites re-judged by the reference semantics inside Coq; beta = `beta F C` of Model/Subst.v computed inside Coq equals the expression the generated call replaced. distinct = hash of (base, rewritten, target, instance); non-trivial = non-empty base result or differing outcome kinds")
+    ck.finish(TRUSTED, "streams by rewrite kind: let (let + into, every prefix length), func (every expression slot x call variants pos/named-omit/named-pass/piped/piped-named/module/module2), trfunc (every run of 1..3 transforms as a transform function), filter (split of every conjunctive filter, merge of every adjacent pair), identity (derive {} / filter true / take 1.. / select of the full frame at every position, sort directly before every sort), module (declarations produced by let / function rewrites moved into one module, two nested modules, or one module with a different same-named decoy left at top level), compose (random chains of 2 and 3 rewrites), tworef (append / self-join / aliased direct self-join of one let-table referenced twice, also behind a module path), module-siblings (two let-tables, or a generated function calling a second generated function `func-nested`, moved into one module together) and pointfree (directed), directed families for every recorded open finding (directed_known: F69 / F66 / F72 / F71 shapes; directed_shared: the hand-built programs of the shared relational findings and generator-made F19 / F37 shapes, each rewritten at every let / identity / function site), and a directed family `.. | sort | take/window/group-take | filter/derive/..` (the order must cross whatever boundary a rewrite puts after the sort). Each pair on 1..3 instances x {sqlite, generic}; engine = abstract rewrites re-judged by the reference semantics inside Coq; beta = `beta F C` of Model/Subst.v computed inside Coq equals the expression the generated call replaced. distinct = hash of (base, rewritten, target, instance); non-trivial = non-empty base result or differing outcome kinds")
